@@ -190,6 +190,10 @@ class KProc(ScriptedMixin, Process):
                 for v in fv}
         return _perm_schema(self, schema)
 
+    def initial_state(self, config=None):
+        init = self.spec.get('init_acc')
+        return {'acc': dict(init)} if init else {}
+
     def _script_update(self, k, timestep, states):
         s = self.spec
         up = {}
